@@ -191,6 +191,11 @@ FirstDep(S, i) ==
 
 \* silk/dec_API.c: *nSamplesOut = nSamplesOutDec * API_sampleRate / (fs_kHz * 1000), one resampler call of nSamplesOutDec samples
 DecOut(fsk, api, ms) == ((ms * fsk) * api) \div (fsk * 1000)
+\* a decoder whose API rate equals the internal rate runs the copy path: a pure delay of CopyDelay samples.  Pushing that
+\* output through a resampler internal -> api reproduces the output of a decoder at rate api, InSituShift samples later
+\* (whole, because CopyDelay is a multiple of every input period: T_Dec); harness/resampler.c measures exactly this
+CopyDelay(fi) == DelayDec[RateID(fi) + 1][RateID(fi) + 1]
+InSituShift(fi, fo) == (CopyDelay(fi) * (fo \div 1000)) \div (fi \div 1000)
 \* silk/enc_API.c: 10 ms blocks: nSamplesFromInput = nSamplesToBuffer * API_fs_Hz / (fs_kHz * 1000)
 EncFromInput(fsk, api, nToBuffer) == (nToBuffer * api) \div (fsk * 1000)
 
